@@ -10,8 +10,10 @@ F = "src/convolution/mod.rs"
 FF = "src/convolution/filters.rs"
 
 GEOS = [("3to2", 3, "0.0", "3.0", 2), ("2to3", 2, "0.0", "2.0", 3), ("crop4to2", 4, "0.5", "3.5", 2),
-        ("5to2", 5, "0.0", "5.0", 2), ("sub3to4", 3, "1.25", "2.75", 4), ("1to3", 1, "0.0", "1.0", 3)]
-GEOS_T = [("7to3", 7, "0.0", "7.0", 3), ("crop6to5", 6, "0.3", "5.9", 5), ("8to2", 8, "0.0", "8.0", 2), ("edge5to3", 5, "2.0", "5.0", 3)]
+        ("5to2", 5, "0.0", "5.0", 2), ("sub3to4", 3, "1.25", "2.75", 4), ("1to3", 1, "0.0", "1.0", 3),
+        ("7to3", 7, "0.0", "7.0", 3), ("crop6to5", 6, "0.3", "5.9", 5), ("8to2", 8, "0.0", "8.0", 2), ("edge5to3", 5, "2.0", "5.0", 3)]
+GEOS_T = [("16to5", 16, "0.0", "16.0", 5), ("crop9to13", 9, "1.7", "8.2", 13), ("20to3", 20, "0.0", "20.0", 3), ("2to9", 2, "0.0", "2.0", 9),
+          ("tail12to7", 12, "4.25", "12.0", 7), ("head11to4", 11, "0.0", "6.5", 4)]
 FILTERS = [("box", "FilterType::Box", "k_box", "0.5"), ("bilinear", "FilterType::Bilinear", "k_bilinear", "1.0"),
            ("catmullrom", "FilterType::CatmullRom", "k_catmull", "2.0"), ("mitchell", "FilterType::Mitchell", "k_mitchell", "2.0")]
 
